@@ -22,7 +22,7 @@ PROP = "C19"
 
 POOLS = {
     "quick": [dict(nfree=2, maxnew=1)],
-    "thorough": [dict(nfree=2, maxnew=2), dict(nfree=3, maxnew=1)],
+    "thorough": [dict(nfree=2, maxnew=2), dict(nfree=3, maxnew=1), dict(nfree=3, maxnew=2), dict(nfree=4, maxnew=1)],
 }
 
 
